@@ -381,6 +381,7 @@ enum Expect {
     End,
 }
 
+#[allow(dead_code)]
 struct LiveOp {
     idx: usize,
     kind: OpKind,
@@ -393,7 +394,11 @@ fn monitor(script: &Script, legacy: bool, keepalive: bool, log: &[WsEv], rlog: &
     let mut init_seen = false;
     let mut acked = false;
     let mut live: BTreeMap<String, LiveOp> = BTreeMap::new();
-    let mut pending: Option<Expect> = None;
+    // a protocol violation was consumed: the connection must be closed (with this code); other valid
+    // output may still come first, further client messages may not be processed
+    let mut due_close: Option<Expect> = None;
+    // answers the server still owes: ack (or rejection), pongs, echoes of client completes, end
+    let mut obl: Vec<Expect> = vec![];
     let mut closed = false; // close frame / connection_error seen: only End may follow
     let mut ended = false;
     let mut delivered_events: BTreeMap<i32, Vec<i32>> = BTreeMap::new();
@@ -403,15 +408,22 @@ fn monitor(script: &Script, legacy: bool, keepalive: bool, log: &[WsEv], rlog: &
     let mut inbox_ended = false;
     let mut completed_ids: BTreeSet<String> = BTreeSet::new();
     let mut queued_max = 0usize;
-    let mut done_ops: BTreeSet<usize> = BTreeSet::new();
-    let mut started_ops: BTreeMap<usize, (OpKind, bool)> = BTreeMap::new(); // op -> (kind, stopped/replaced)
     macro_rules! fail {
         ($class:expr, $($arg:tt)*) => {{
             out.viol($class, format!("{}; history: {:?}; {desc}", format!($($arg)*), log));
             return;
         }};
     }
-    for (pos, ev) in log.iter().enumerate() {
+    fn take(obl: &mut Vec<Expect>, pred: impl Fn(&Expect) -> bool) -> bool {
+        match obl.iter().position(|e| pred(e)) {
+            Some(i) => {
+                obl.remove(i);
+                true
+            }
+            None => false,
+        }
+    }
+    for ev in log.iter() {
         match ev {
             WsEv::Delivered(k) => {
                 delivered.insert(*k);
@@ -431,43 +443,44 @@ fn monitor(script: &Script, legacy: bool, keepalive: bool, log: &[WsEv], rlog: &
                     sim::count("probe:operation-live-while-input-processed");
                     out.nontrivial = true;
                 }
-                if let Some(p) = &pending {
-                    // a further message may only be consumed while waiting for nothing
-                    fail!("C25/missing-response", "message #{k} consumed while {:?} was still outstanding", p);
+                if let Some(p) = &due_close {
+                    fail!("C25/processing-after-violation", "message #{k} processed although the connection has to be closed ({:?})", p);
+                }
+                if obl.contains(&Expect::End) {
+                    fail!("C25/processing-after-terminate", "message #{k} processed after connection_terminate");
+                }
+                if !obl.is_empty() {
+                    sim::count("probe:message-consumed-while-answer-outstanding");
                 }
                 let act = &script.acts[*k].1;
                 match act {
                     Act::InvalidJson | Act::UnknownType => {
-                        pending = Some(if legacy { Expect::ConnErrorOrClose } else { Expect::Close(Some(4400)) });
+                        due_close = Some(if legacy { Expect::ConnErrorOrClose } else { Expect::Close(Some(4400)) });
                     }
                     Act::Init { .. } => {
                         if init_seen {
-                            pending = Some(if legacy { Expect::ConnError } else { Expect::Close(Some(4429)) });
+                            due_close = Some(if legacy { Expect::ConnError } else { Expect::Close(Some(4429)) });
                         } else {
                             init_seen = true;
-                            pending = Some(Expect::AckOrReject);
+                            obl.push(Expect::AckOrReject);
                         }
                     }
                     Act::Subscribe { id, kind } => {
                         if !acked {
-                            pending = Some(if legacy { Expect::ConnErrorOrClose } else { Expect::Close(Some(4401)) });
+                            due_close = Some(if legacy { Expect::ConnErrorOrClose } else { Expect::Close(Some(4401)) });
                         } else if live.contains_key(id) {
                             sim::count("probe:id-reused-while-live");
                             if legacy {
                                 // the legacy protocol has no rule: the new operation replaces the old one
-                                let old = live.remove(id).unwrap();
-                                started_ops.insert(old.idx, (old.kind, true));
                                 live.insert(id.clone(), LiveOp { idx: *k, kind: kind.clone(), nexts: 0, last_event: 0 });
-                                started_ops.insert(*k, (kind.clone(), false));
                             } else {
-                                pending = Some(Expect::Close(Some(4409)));
+                                due_close = Some(Expect::Close(Some(4409)));
                             }
                         } else {
                             if completed_ids.contains(id) {
                                 sim::count("probe:id-reused-after-complete");
                             }
                             live.insert(id.clone(), LiveOp { idx: *k, kind: kind.clone(), nexts: 0, last_event: 0 });
-                            started_ops.insert(*k, (kind.clone(), false));
                         }
                     }
                     Act::Complete { id } => {
@@ -478,45 +491,50 @@ fn monitor(script: &Script, legacy: bool, keepalive: bool, log: &[WsEv], rlog: &
                                     sim::count("probe:stop-with-event-queued");
                                 }
                             }
-                            started_ops.insert(op.idx, (op.kind, true));
                             completed_ids.insert(id.clone());
-                            pending = Some(Expect::CompleteFor(id.clone()));
+                            // this implementation echoes a complete; the echo is optional in graphql-transport-ws
+                            obl.push(Expect::CompleteFor(id.clone()));
                         }
                     }
-                    Act::Ping { .. } => pending = Some(Expect::PongOrFail),
+                    Act::Ping { .. } => obl.push(Expect::PongOrFail),
                     Act::Pong => {}
-                    Act::Terminate => pending = Some(Expect::End),
+                    Act::Terminate => obl.push(Expect::End),
                 }
             }
             WsEv::Out(v) => {
                 if closed || ended {
                     fail!("C25/output-after-close", "output {v} after the connection was closed");
                 }
+                if obl.contains(&Expect::End) {
+                    fail!("C25/wrong-response", "output {v} after connection_terminate");
+                }
                 let ty = v["type"].as_str().unwrap_or("");
-                let is_timeout_err = ty == "connection_error" && keepalive && v["payload"]["message"] == "timeout";
-                match (&pending, ty) {
-                    (_, "connection_error") if legacy && is_timeout_err => {
-                        sim::count("probe:keepalive-fired");
+                match ty {
+                    "connection_error" if legacy => {
+                        let is_timeout = keepalive && v["payload"]["message"] == "timeout";
+                        let due = matches!(due_close, Some(Expect::ConnError) | Some(Expect::ConnErrorOrClose));
+                        let callback_failed = obl.iter().any(|e| matches!(e, Expect::AckOrReject | Expect::PongOrFail));
+                        if is_timeout {
+                            sim::count("probe:keepalive-fired");
+                        } else if !(due || callback_failed) {
+                            fail!("C25/unexpected-output", "connection_error without a reason: {v}");
+                        }
                         closed = true;
-                        pending = None;
+                        due_close = None;
+                        obl.clear();
                     }
-                    (Some(Expect::ConnError), "connection_error") | (Some(Expect::ConnErrorOrClose), "connection_error") if legacy => {
-                        closed = true;
-                        pending = None;
-                    }
-                    (Some(Expect::AckOrReject), "connection_error") | (Some(Expect::PongOrFail), "connection_error") if legacy => {
-                        closed = true;
-                        pending = None;
-                    }
-                    (Some(Expect::AckOrReject), "connection_ack") => {
+                    "connection_ack" => {
+                        if !take(&mut obl, |e| *e == Expect::AckOrReject) {
+                            fail!("C25/unexpected-ack", "connection_ack without an outstanding connection_init (init seen: {init_seen}, already acknowledged: {acked})");
+                        }
                         acked = true;
-                        pending = None;
                     }
-                    (Some(Expect::PongOrFail), "pong") => pending = None,
-                    (Some(Expect::CompleteFor(id)), "complete") if v["id"] == id.as_str() => pending = None,
-                    (Some(p), _) => fail!("C25/wrong-response", "expected {:?}, got {v}", p),
-                    (None, "connection_ack") => fail!("C25/unexpected-ack", "connection_ack without an outstanding connection_init (init seen: {init_seen}, already acknowledged: {acked})"),
-                    (None, "next") | (None, "data") => {
+                    "pong" => {
+                        if !take(&mut obl, |e| *e == Expect::PongOrFail) {
+                            fail!("C25/unexpected-pong", "pong without an outstanding ping");
+                        }
+                    }
+                    "next" | "data" => {
                         if (ty == "next") == legacy {
                             fail!("C25/wrong-message-type", "message type {ty} does not belong to the negotiated protocol");
                         }
@@ -547,8 +565,12 @@ fn monitor(script: &Script, legacy: bool, keepalive: bool, log: &[WsEv], rlog: &
                             }
                         }
                     }
-                    (None, "complete") => {
+                    "complete" => {
                         let id = v["id"].as_str().unwrap_or("").to_string();
+                        // the echo of a client's complete, or the end of a live operation
+                        if take(&mut obl, |e| *e == Expect::CompleteFor(id.clone())) {
+                            continue;
+                        }
                         let Some(op) = live.remove(&id) else { fail!("C25/complete-for-dead-id", "{v} for an id that is not live (completed twice?)") };
                         completed_ids.insert(id);
                         match op.kind {
@@ -563,19 +585,17 @@ fn monitor(script: &Script, legacy: bool, keepalive: bool, log: &[WsEv], rlog: &
                                 }
                             }
                         }
-                        done_ops.insert(op.idx);
                     }
-                    (None, "pong") => fail!("C25/unexpected-pong", "pong without an outstanding ping"),
-                    (None, _) => fail!("C25/unexpected-output", "unexpected output {v}"),
+                    _ => fail!("C25/unexpected-output", "unexpected output {v}"),
                 }
-                let _ = pos;
             }
             WsEv::OutClose(code) => {
                 if closed || ended {
                     fail!("C25/output-after-close", "close {code} after the connection was closed");
                 }
                 closed = true;
-                match &pending {
+                let callback_failed = obl.iter().any(|e| matches!(e, Expect::AckOrReject | Expect::PongOrFail));
+                match &due_close {
                     Some(Expect::Close(Some(want))) => {
                         if code != want {
                             if *want == 4401 && *code == 1011 {
@@ -590,28 +610,28 @@ fn monitor(script: &Script, legacy: bool, keepalive: bool, log: &[WsEv], rlog: &
                         }
                     }
                     Some(Expect::Close(None)) | Some(Expect::ConnErrorOrClose) => {}
-                    Some(Expect::AckOrReject) | Some(Expect::PongOrFail) if !legacy => {}
                     Some(p) => fail!("C25/wrong-response", "expected {:?}, got close {code}", p),
                     None => {
-                        if !(keepalive && *code == 3008 && !legacy) {
+                        if callback_failed && !legacy {
+                            // a rejected init or a failed ping callback: any close code
+                        } else if keepalive && *code == 3008 && !legacy {
+                            sim::count("probe:keepalive-fired");
+                        } else {
                             fail!("C25/unexpected-close", "close {code} without a reason");
                         }
-                        sim::count("probe:keepalive-fired");
                     }
                 }
-                if keepalive && *code == 3008 && pending.is_some() && !matches!(pending, Some(Expect::AckOrReject) | Some(Expect::PongOrFail)) {
-                    fail!("C25/wrong-close-code", "keep-alive close while {:?} was outstanding", pending);
-                }
-                pending = None;
+                due_close = None;
+                obl.clear();
             }
             WsEv::OutEnd => {
                 ended = true;
-                let legit = closed || inbox_ended || matches!(pending, Some(Expect::End));
-                if !legit {
-                    fail!("C25/unexpected-end", "the stream ended although the connection was neither closed nor the client gone (outstanding: {:?})", pending);
+                let terminated = take(&mut obl, |e| *e == Expect::End);
+                if !(closed || inbox_ended || terminated) {
+                    fail!("C25/unexpected-end", "the stream ended although the connection was neither closed nor the client gone (outstanding: {:?} {:?})", due_close, obl);
                 }
-                if matches!(pending, Some(Expect::End)) {
-                    pending = None;
+                if let (Some(p), false, false) = (&due_close, closed, inbox_ended) {
+                    fail!("C25/missing-close", "the stream ended without the close the protocol requires ({:?})", p);
                 }
             }
         }
@@ -634,10 +654,11 @@ fn monitor(script: &Script, legacy: bool, keepalive: bool, log: &[WsEv], rlog: &
         fail!("C25/no-progress", "step cap reached");
     }
     if !closed && !ended {
-        if let Some(p) = &pending {
-            if !(keepalive) {
-                fail!("C25/stall", "{:?} still outstanding at quiescence", p);
-            }
+        if let Some(p) = &due_close {
+            fail!("C25/missing-close", "the connection is still open at quiescence although the protocol requires closing it ({:?})", p);
+        }
+        if !obl.is_empty() && !keepalive {
+            fail!("C25/stall", "{:?} still outstanding at quiescence", obl);
         }
         if delivered.len() != consumed.len() {
             fail!("C25/stall", "{} delivered messages were never consumed although the connection is open", delivered.len() - consumed.len());
@@ -659,5 +680,4 @@ fn monitor(script: &Script, legacy: bool, keepalive: bool, log: &[WsEv], rlog: &
     } else if closed && !ended {
         fail!("C25/stall", "close was sent but the stream did not end");
     }
-    let _ = (done_ops, started_ops);
 }
